@@ -6,11 +6,17 @@ package ina
 // return freshly built URLs; they write nothing outside fresh objects except the URL's cached
 // document / body position.
 //@ func IsURL
+//@   property C10
+//@   sweep idx slice div
 //@   opaque
 //@   modifies models.URL::*!Hops!Redirects
 //@ func IsAPIURL
+//@   property C10
+//@   sweep idx slice div
 //@   opaque
 //@   modifies models.URL::*!Hops!Redirects
 //@ func ExtractMedias
+//@   property C10
+//@   sweep idx slice div
 //@   opaque
 //@   modifies models.URL::*!Hops!Redirects
